@@ -53,8 +53,9 @@ ASSUMPTIONS = [
     'service and characteristic declarations are exercised as gatt.py builds them (read-only) and with permissions '
     'changed by the application after construction',
 ]
-MIN_EVENTS = {
-    'quick': {'refused_accesses_judged': 18000, 'granted_accesses_seen': 5000, 'disclosure_scans': 20000,
+MIN_EVENTS = {  # (downgrade_mid_long_read_probes is checked in quick only through the entry below)
+
+    'quick': {'downgrade_mid_long_read_probes': 10, 'refused_accesses_judged': 18000, 'granted_accesses_seen': 5000, 'disclosure_scans': 20000,
               'value_unchanged_checks': 10000, 'mixed_order_requests': 3500, 'value_attributes_exercised': 1900,
               'eatt_accesses': 14000, 'refusals_with_matching_error': 5000},
     'thorough': {'refused_accesses_judged': 430000, 'granted_accesses_seen': 120000, 'disclosure_scans': 480000,
@@ -482,7 +483,8 @@ async def run_case(case, r: R):
         if bearer is None:
             raise RuntimeError('could not open an enhanced ATT bearer')
     else:
-        await hs.exchange(hs.fixed, ra.exchange_mtu(rng.choice([64, 185, 517])), 'mtu')
+        # (ATT_MTU 23 keeps the 30- and 60-byte values "long", so that Read Blob continuations exist)
+        await hs.exchange(hs.fixed, ra.exchange_mtu(rng.choice([23, 23, 64, 185, 517])), 'mtu')
     ss = Session(hs, bearer, r, enc, auth, rng)
     by_index = {m.index: m for m in hs.models if m.index > 0}
     for m in hs.models:
@@ -494,6 +496,27 @@ async def run_case(case, r: R):
     rng.shuffle(order)
     for m in order:
         await ss.single_reads(m)
+    # 1b. the link loses its security in the middle of a long read: the continuation of a read that
+    #     started while the link qualified must be judged against the link as it is NOW
+    if not (enc and auth):
+        for m in order:
+            if ss.readable(m) or not ra.allowed_read(m.perm, True, True):
+                continue
+            hs.set_link(True, True)
+            ss.enc, ss.auth = True, True
+            first = await ss.ask(ra.read_blob(m.handle, 0), 'read-blob', [m])
+            hs.set_link(enc, auth)
+            ss.enc, ss.auth = enc, auth
+            if not first or first[0][0] != ra.READ_BLOB_RSP:
+                continue
+            r.ev('downgrade_mid_long_read_probes')
+            replies = await ss.ask(ra.read_blob(m.handle, 1), 'read-blob', [m])
+            r.ev('refused_accesses_judged')
+            r.ev('oracle_evals')
+            if replies and replies[0][0] == ra.READ_BLOB_RSP:
+                r.bad('perm/read-blob/granted/after-security-downgrade',
+                      f'Read Blob offset 1 of {m} answered by {replies[0][:16].hex()} on a link with enc={enc} auth={auth}: '
+                      f'the read was started (offset 0) while the link was encrypted and authenticated')
     # 2. ranges and handle lists over every open/protected order
     for g in groups:
         members = [by_index[i] for i in g['indices']]
